@@ -137,6 +137,11 @@ func extractEmissions(p *core.Prog, r *core.Result, ops *opTable, rule string) [
 					}
 				} else if prm, ok := b.(*ssa.Parameter); ok {
 					templates[fn] = append(templates[fn], emitTemplate{opParam: paramIndex(fn, prm), em: emission{Fn: fn, Instr: in}})
+				} else if ph, ok := b.(*ssa.Phi); ok && phiOfOpcodes(ph, ops) != nil {
+					// the opcode was chosen into a variable: one emission per alternative
+					for _, k := range phiOfOpcodes(ph, ops) {
+						out = append(out, emission{Op: k, Fn: fn, Instr: in, Site: in})
+					}
 				} else {
 					r.Unk(rule, fname(fn)+"#WriteByte-nonconst", p.InstrPos(in), "WriteByte of a non-constant byte: cannot tell which opcode is emitted")
 				}
@@ -211,28 +216,43 @@ func extractEmissions(p *core.Prog, r *core.Result, ops *opTable, rule string) [
 			}
 		}
 	}
-	// instantiate templates at their call sites
-	for fn, ts := range templates {
-		if u := p.FuncValueUses(fn); len(u) > 0 {
-			r.Unk(rule, fname(fn)+"#template-escapes", p.InstrPos(u[0]), "opcode-parameterised emitter escapes as a value")
-		}
-		for _, c := range p.StaticCallers(fn) {
-			for _, t := range ts {
-				arg := c.Common().Args[t.opParam]
-				k, ok := core.ConstInt(arg)
-				if !ok {
-					r.Unk(rule, fname(fn)+"#template-arg", p.InstrPos(c.(ssa.Instruction)), "opcode argument is not a constant")
-					continue
+	// instantiate templates at their call sites (an opcode parameter may be forwarded through one more helper)
+	pending := map[*ssa.Function][]emitTemplate{}
+	depthOf := map[*ssa.Function]int{}
+	for round := 0; round < 3 && len(templates) > 0; round++ {
+		for fn, ts := range templates {
+			if u := p.FuncValueUses(fn); len(u) > 0 {
+				r.Unk(rule, fname(fn)+"#template-escapes", p.InstrPos(u[0]), "opcode-parameterised emitter escapes as a value")
+			}
+			for _, c := range p.StaticCallers(fn) {
+				for _, t := range ts {
+					arg := c.Common().Args[t.opParam]
+					k, ok := core.ConstInt(arg)
+					if !ok {
+						if prm, isParam := arg.(*ssa.Parameter); isParam && depthOf[fn] < 2 {
+							// forwarded opcode parameter: the caller is a template too
+							caller := c.Parent()
+							nt := t
+							nt.opParam = paramIndex(caller, prm)
+							pending[caller] = append(pending[caller], nt)
+							depthOf[caller] = depthOf[fn] + 1
+							continue
+						}
+						r.Unk(rule, fname(fn)+"#template-arg", p.InstrPos(c.(ssa.Instruction)), "opcode argument is not a constant")
+						continue
+					}
+					em := t.em
+					em.Op = k
+					em.Site = c.(ssa.Instruction)
+					if _, isOp := ops.byVal[k]; !isOp {
+						em.Raw = true
+					}
+					out = append(out, em)
 				}
-				em := t.em
-				em.Op = k
-				em.Site = c.(ssa.Instruction)
-				if _, isOp := ops.byVal[k]; !isOp {
-					em.Raw = true
-				}
-				out = append(out, em)
 			}
 		}
+		templates = pending
+		pending = map[*ssa.Function][]emitTemplate{}
 	}
 	sort.SliceStable(out, func(i, j int) bool { return out[i].Op < out[j].Op })
 	return out
@@ -406,6 +426,25 @@ func checkReadHelper(p *core.Prog, r *core.Result, rule string, fn *ssa.Function
 		r.Unk(rule, construct, p.Pos(fn.Pos()), "expected a single return")
 		return
 	}
+	// library form: binary.LittleEndian.UintNN(b[:]) over the array filled by a full Read
+	if lc, ok := stripConv(core.RetVals(rets[0])[0]).(*ssa.Call); ok {
+		if cal := core.Callee(lc); cal != nil && core.CalleeKey(cal) == fmt.Sprintf("encoding/binary.(littleEndian).Uint%d", 8*n) {
+			if sl, ok := lc.Call.Args[len(lc.Call.Args)-1].(*ssa.Slice); ok && sl.Low == nil && sl.High == nil {
+				filled := false
+				for _, c := range core.Calls(fn) {
+					if core.IsMethod(c, pkgPickle, "reader", "Read") {
+						if s2, ok := c.Common().Args[1].(*ssa.Slice); ok && s2.X == sl.X && s2.Low == nil && s2.High == nil {
+							if at, ok := sl.X.Type().Underlying().(*types.Pointer).Elem().Underlying().(*types.Array); ok && at.Len() == int64(n) {
+								filled = true
+							}
+						}
+					}
+				}
+				r.Check(filled, rule, construct, p.Pos(fn.Pos()), fmt.Sprintf("reads %d bytes and decodes them with binary.LittleEndian", n), "the little-endian decode is not applied to a fully read buffer of the right size")
+				return
+			}
+		}
+	}
 	srcs := map[ssa.Value]int64{}
 	orTree(core.RetVals(rets[0])[0], 0, srcs)
 	seen := map[int64]int64{}
@@ -545,6 +584,20 @@ func nonNegative(p *core.Prog, v ssa.Value, depth int) bool {
 		return false
 	}
 	switch x := v.(type) {
+	case *ssa.Parameter:
+		// every static caller passes a non-negative value
+		fn := x.Parent()
+		idx := paramIndex(fn, x)
+		callers := p.StaticCallers(fn)
+		if idx < 0 || len(callers) == 0 || len(p.FuncValueUses(fn)) > 0 {
+			return false
+		}
+		for _, c := range callers {
+			if idx >= len(c.Common().Args) || !nonNegative(p, c.Common().Args[idx], depth+1) {
+				return false
+			}
+		}
+		return true
 	case *ssa.UnOp:
 		// a counter field: only ever assigned non-negative constants or itself plus a non-negative constant
 		if x.Op != token.MUL {
@@ -719,4 +772,20 @@ func decodedRange(p *core.Prog, dc *decCase, sizes types.Sizes) (interval, int, 
 		return interval{-math.Pow(2, bits-1), math.Pow(2, bits-1) - 1}, width, desc, true
 	}
 	return interval{0, math.Pow(2, bits) - 1}, width, desc, true
+}
+
+// phiOfOpcodes: all incoming values of the phi are opcode constants.
+func phiOfOpcodes(ph *ssa.Phi, ops *opTable) []int64 {
+	var out []int64
+	for _, e := range ph.Edges {
+		k, ok := core.ConstInt(e)
+		if !ok {
+			return nil
+		}
+		if _, isOp := ops.byVal[k]; !isOp {
+			return nil
+		}
+		out = append(out, k)
+	}
+	return out
 }
